@@ -4029,6 +4029,7 @@ def sdp(c, Gl = None, hl = None, Gs = None, hs = None, A = None, b = None,
                     blas.scal(0.0, zs[k], offset=j+ms[k]*(j+1), inc=ms[k])
                 base.gemv(Gs[k], zs[k], rx, alpha=2.0, beta=1.0, trans='T')
                 blas.scal(2.0, zs[k], inc=ms[k]+1)
+                misc.symm(zs[k], ms[k])
                 ind += ms[k]
             pinfres =  blas.nrm2(rx) / resx0
             dinfres = None
@@ -4079,6 +4080,7 @@ def sdp(c, Gl = None, hl = None, Gs = None, hs = None, A = None, b = None,
                     blas.scal(0.0, zs[k], offset=j+ms[k]*(j+1), inc=ms[k])
                 base.gemv(Gs[k], zs[k], rx, alpha=2.0, beta=1.0, trans='T')
                 blas.scal(2.0, zs[k], inc=ms[k]+1)
+                misc.symm(zs[k], ms[k])
                 ind += ms[k]
             resx = blas.nrm2(rx) / resx0
 
@@ -4123,6 +4125,7 @@ def sdp(c, Gl = None, hl = None, Gs = None, hs = None, A = None, b = None,
                     base.gemv(Gs[k], zs[k], rx, alpha=2.0, beta=1.0,
                         trans='T')
                     blas.scal(2.0, zs[k], inc=ms[k]+1)
+                    misc.symm(zs[k], ms[k])
                     ind += ms[k]
                 pinfres = blas.nrm2(rx) / resx0 / dcost
 
